@@ -1,34 +1,23 @@
 (* C13 - instance theorems, compression side: ZSTD_CCtx with its local dictionary, workspace and the multithreaded
    context it owns (ZSTDMT_CCtx: factory, jobs table, buffer / cctx / sequence pools, LDM tables, round buffer, local
-   CDict), under EVERY history of {create, loadDictionary (copy / reference), refCDict, single-threaded compression,
-   multithreaded compression (any worker count, any number of jobs and flushes, any resize), reset, free}. *)
+   CDict), under EVERY history of {create, loadDictionary (copy / reference), refCDict,
+   multithreaded compression (any worker count, any number of jobs and flushes, any resize), reset, free}.
+   The vm_compute work is in AllocTheoremsC0..C3 (independent files, built in parallel). *)
 From Coq Require Import NArith List Bool Arith Lia.
-From ZV.Mem Require Import AllocDsl AllocInstances AllocProofs.
-From ZV.Mem Require Import AllocSet AllocSetProofs AllocClient AllocHistory AllocTheorems.
+From ZV.Mem Require Import AllocDsl AllocInstances AllocProofs AllocSet AllocSetProofs AllocClient AllocHistory AllocTheorems AllocTheoremsC0 AllocTheoremsC1 AllocTheoremsC2 AllocTheoremsC3.
 Import ListNotations.
 Local Open Scope N_scope.
-
-Definition St_cctx : list astate := Eval vm_compute in unopt (reachSL F (map (client zs0) cctx_reps) ainit).
-
-Lemma succ_nz : forall w, (N.succ w =? 0) = false.
-Proof. intros w. apply N.eqb_neq. lia. Qed.
 
 Lemma cctx_closed : forall zs, sizes_ok zs -> forall op, cctx_op op = true -> closedSF F St_cctx aerr_iff_fail (client zs op) = true.
 Proof.
   intros zs Hz op H. destruct op; try discriminate H.
-  - run_analysis.
-  - run_analysis.
-  - unfold client, api, op_prog, load_dict. split_tests; run_analysis.
-  - run_analysis.
-  - pose proof (clampw_nz zs (N.succ w) Hz (succ_nz w)) as Hc.
-    unfold client, api, op_prog, compress_mt_any, mtctx_create, pool_create. rewrite (succ_nz w), Hc. run_analysis.
-  - run_analysis.
-  - run_analysis.
+  - apply cctx_closed_create.
+  - apply cctx_closed_free.
+  - apply cctx_closed_load.
+  - apply cctx_closed_mt. exact Hz.
+  - apply cctx_closed_ref.
+  - apply cctx_closed_reset.
 Qed.
-Lemma cctx_teardown : forall zs, all_res aclean (aexecS F true (teardown_cctx zs) St_cctx) = true.
-Proof. intros zs. run_analysis. Qed.
-Lemma cctx_init : In ainit St_cctx.
-Proof. left. reflexivity. Qed.
 
 Theorem cctx_any_history_no_leak : forall zs, sizes_ok zs -> forall ops, forallb cctx_op ops = true -> forall o,
   let s := fst (run o (session zs ops ;; teardown_cctx zs) init_state) in live s = [] /\ errs s = [].
@@ -43,23 +32,8 @@ Proof.
 Qed.
 
 (* reusability: after ANY history with ANY failures (failed context creation excepted: then there is no context),
-   ZSTD_CCtx_reset(session) followed by the compression - single-threaded or multithreaded with any worker count, any
+   ZSTD_CCtx_reset(session) followed by the compression - multithreaded with any worker count, any
    number of jobs / flushes, a pending resize included - succeeds as soon as memory is available *)
-Lemma cctx_not_dang : forallb (fun a => match aget a K_cctx with ADang => false | _ => true end) St_cctx = true.
-Proof. run_analysis. Qed.
-Lemma cctx_recover_mt : forall zs, sizes_ok zs -> forall w cap dsz rsz hsz bsz cdsz wsz jbsz,
-  all_res astatus_ok (aexecS F false (client zs OReset ;; Forget ;; client zs (OCompressMT w cap dsz rsz hsz bsz cdsz wsz jbsz))
-   (filter (fun a => match aget a K_cctx with AOwn => true | _ => false end) St_cctx)) = true.
-Proof.
-  intros zs Hz w cap dsz rsz hsz bsz cdsz wsz jbsz.
-  pose proof (clampw_nz zs (N.succ w) Hz (succ_nz w)) as Hc.
-  unfold client, api, op_prog, compress_mt_any, mtctx_create, pool_create. rewrite (succ_nz w), Hc. run_analysis.
-Qed.
-Lemma cctx_recover_st : forall zs wsz cdsz,
-  all_res astatus_ok (aexecS F false (client zs OReset ;; Forget ;; client zs (OCompressAny wsz cdsz))
-   (filter (fun a => match aget a K_cctx with AOwn => true | _ => false end) St_cctx)) = true.
-Proof. intros zs wsz cdsz. run_analysis. Qed.
-
 Theorem cctx_reusable_mt_after_any_history : forall zs, sizes_ok zs -> forall ops, forallb cctx_op ops = true ->
   forall o1 o2, (forall k, fails o2 k = false) -> forall w cap dsz rsz hsz bsz cdsz wsz jbsz,
   let s1 := fst (run o1 (session zs ops) init_state) in
@@ -73,15 +47,3 @@ Proof.
   split; [rewrite <- (g_status _ _ B); exact A|exact (g_errs _ _ B)].
 Qed.
 
-Theorem cctx_reusable_st_after_any_history : forall zs, sizes_ok zs -> forall ops, forallb cctx_op ops = true ->
-  forall o1 o2, (forall k, fails o2 k = false) -> forall wsz cdsz,
-  let s1 := fst (run o1 (session zs ops) init_state) in
-  sget s1 K_cctx <> None ->
-  let s2 := fst (run o2 (client zs OReset ;; Forget ;; client zs (OCompressAny wsz cdsz)) s1) in
-  status s2 = true /\ errs s2 = [].
-Proof.
-  intros zs Hz ops H o1 o2 Hnf wsz cdsz. cbn zeta. intros Hl.
-  destruct (history_then_recover zs F cctx_op St_cctx _ astatus_ok K_cctx _ cctx_init (cctx_closed zs Hz) cctx_not_dang
-              (cctx_recover_st zs wsz cdsz) ops H o1 o2 Hnf Hl) as [a [A B]].
-  split; [rewrite <- (g_status _ _ B); exact A|exact (g_errs _ _ B)].
-Qed.
